@@ -163,7 +163,9 @@ TrSegInit ==
                 \cup (IF ObserversAgree(o) THEN {} ELSE {"observers"})
                 \cup (IF ObsErrPathsOK(o) THEN {} ELSE {"errpath"})
                 \cup (IF isovl /\ ~ObsMatches(o, Merge(e.layers)) THEN {"union"} ELSE {})
-                \cup (IF isalt /\ ObsCore(e.twinobs) # ObsCore(o) THEN {"view"} ELSE {}) IN
+                \cup (IF isalt /\ ObsCore(e.twinobs) # ObsCore(o) THEN {"view"} ELSE {})
+                \* C18: the embedded view equals the observation of a physical filesystem on the same folder
+                \cup (IF "truth" \in DOMAIN e /\ ~ObsMatches(o, TreeOfObs(e.truth)) THEN {"truth"} ELSE {}) IN
      /\ world' = w
      /\ cfg' = [kind |-> e.kind, name |-> e.cfg, sup |-> Range(e.sup), ro |-> e.ro,
                 prefix |-> IF "prefix" \in DOMAIN e THEN e.prefix ELSE <<>>]
